@@ -441,9 +441,11 @@ func (p *Proc) fieldStep(ec *ectx, base Val, idx int, n ast.Node) Val {
 		}
 		f := stt.Field(idx)
 		p.nilCheck(ec, base.T, n)
-		t := Sel(p.fieldHeap(ec.st, elem, f), base.T)
+		h := p.fieldHeap(ec.st, elem, f)
+		t := Sel(h, base.T)
 		v := Val{T: t, Typ: f.Type()}
 		p.wfAssume(ec.st, v)
+		p.entryAllocated(ec.st, v, h)
 		return v
 	}
 	stt, ok := bt.Underlying().(*types.Struct)
@@ -1260,4 +1262,27 @@ func (p *Proc) pendingStore(ec *ectx, owner types.Type, f *types.Var, val ast.Ex
 		ec.st.resolved[v] = Add(orZero(ec.st.resolved[v]), IntLit(1))
 		p.ctx.notes["callbacks stored in "+nt.Obj().Name()+"."+f.Name()+" are invoked exactly once later by the code that consumes that field (pending store)"] = true
 	}
+}
+
+// entryAllocated: a reference read from a heap array that is unchanged since procedure entry
+// was allocated at entry (every reference stored in the entry heap is allocated at entry), so
+// that it differs from anything allocated later, also across calls.
+func (p *Proc) entryAllocated(st *State, v Val, h *Term) {
+	if hasBound(v.T.S) || !strings.HasPrefix(h.S, "|H_") || strings.Contains(h.S, "!") {
+		return
+	}
+	var ref *Term
+	switch v.Typ.Underlying().(type) {
+	case *types.Pointer, *types.Map:
+		ref = v.T
+	case *types.Slice:
+		ref = SlArr(v.T)
+	default:
+		return
+	}
+	if p.entry == nil {
+		return
+	}
+	al0 := p.heapGet(p.entry, "AL:", ArrSort(SInt, SBool))
+	st.assume(Or(Eq(ref, IntLit(0)), Sel(al0, ref)))
 }
